@@ -15,7 +15,7 @@ partial def parseTree : Sx → Option Tree
   | .list (l :: ks) => do
     let l ← l.nat?
     let ks ← ks.mapM parseTree
-    pure (.node l ks)
+    pure (.node [l] ks)
   | _ => none
 
 /-- Name of the yield point a worker is parked at (`-` for program points without a hook). -/
@@ -70,8 +70,8 @@ def coarse (n w : Nat) (obs : Option (Nat × Nat)) (quitAt : Option Nat) (s : St
 def lensStr (n : Nat) (s : State) : String :=
   ",".intercalate ((List.range n).map fun w => toString (s.dq w).length)
 
-def labelsStr (ls : List Nat) : String :=
-  if ls.isEmpty then "-" else ",".intercalate (ls.map toString)
+def labelsStr (ls : List Label) : String :=
+  if ls.isEmpty then "-" else ",".intercalate (ls.map fun l => "/".intercalate (l.map toString))
 
 def parseStep : Sx → Option (Nat × Option (Nat × Nat))
   | .list [w] => do pure ((← w.nat?), none)
